@@ -191,6 +191,32 @@ impl HistoryModel {
                 }
             }
         }
+        if self.mon.privkeys {
+            // a leaf private key replaced by an own update or commit must be gone: it may not
+            // occur anywhere in what the member would store (snapshot incl. private tree,
+            // pending updates, pending commit)
+            let gone: Vec<usize> = w.leaf_sk.keys().copied().filter(|p| !members.contains(p)).collect();
+            for p in gone {
+                w.leaf_sk.remove(&p);
+            }
+            for &p in &members {
+                let (_, keys) = w.g(p).verif_private_keys();
+                let Some(Some(cur)) = keys.first().cloned() else { continue };
+                if let Some(old) = w.leaf_sk.get(&p) {
+                    if *old != cur {
+                        ctx.eval();
+                        ctx.goal("leaf-key-replaced");
+                        let snap = w.g(p).verif_snapshot_bytes();
+                        if !old.is_empty() && snap.windows(old.len()).any(|x| x == &old[..]) {
+                            ctx.violation_for("C09", "replaced-leaf-key-retained", format!("{} replaced its leaf key in this round ({how}) but the old private key is still part of its stored state", w.parties[p].name));
+                        } else {
+                            ctx.outcome("replaced-leaf-key:gone");
+                        }
+                    }
+                }
+                w.leaf_sk.insert(p, cur);
+            }
+        }
         if self.mon.observer {
             // one member's copy per round is given to a fresh observer (the copies are
             // byte-compared by the ledger); rotate which one
